@@ -1,8 +1,8 @@
 (** C15 — documented concurrent use behaves like some serial execution.
-    Statements only; the models are Conc/{Sem,Refcount,LazyPublish,Async,RowGroups}.v,
-    the proofs Conc/*Proofs.v.
+    Statements only; the models are Conc/{Sem,Refcount,LazyPublish,Async,RowGroups,
+    GiveBack,FillPublish}.v, the proofs Conc/*Proofs.v.
 
-    What is proved: the LOGIC of the four synchronisation protocols of the
+    What is proved: the LOGIC of the synchronisation protocols of the
     library, for ALL interleavings (every run = every list of scheduler
     choices) of atomic steps executed in a sequentially consistent order:
     atomics and channel operations are single steps, plain memory is touched
@@ -16,6 +16,8 @@ From PQ Require Import Conc.Refcount Conc.RefcountProofs.
 From PQ Require Import Conc.LazyPublish Conc.LazyPublishProofs.
 From PQ Require Import Conc.Async Conc.AsyncProofs.
 From PQ Require Import Conc.RowGroups Conc.RowGroupsProofs.
+From PQ Require Import Conc.GiveBack Conc.GiveBackProofs.
+From PQ Require Import Conc.FillPublish Conc.FillPublishProofs.
 Import ListNotations.
 
 (** * P1 — reference counted pooled buffers (buffer.go) *)
@@ -176,6 +178,43 @@ Print Assumptions C15_writers_commute.
 Print Assumptions C15_rowgroups_commute.
 Print Assumptions C15_rowgroups_state_per_writer.
 
+(** * P5 — what Close gives back to a process-wide pool, it gives back once (file.go) *)
+
+(** One thread of the model is one page reader with the history of calls made
+    on it: [KOpen] (pool.Get of ANY element of the pool, or a new one), reads,
+    and ANY NUMBER of [KClose] calls (`defer pages.Close()` plus an explicit
+    Close).  FilePages.Close puts f.rbuf back and forgets it.  For any
+    histories and every interleaving:
+    - nothing is in the pool twice;
+    - what a reader holds is not in the pool;
+    - no two readers that are open at the same time hold the same thing (two
+      columns of one Rows, readers of unrelated files in other goroutines). *)
+Theorem C15_close_gives_back_once : forall progs sched c,
+  run (kstep true) (kinit progs) sched = Some c ->
+  NoDup (kpool (fst c)) /\
+  (forall t l p i, nth_error (snd c) t = Some (l, p) -> krbuf l = Some i -> ~ In i (kpool (fst c))) /\
+  (forall t1 t2 i, ~ shared_by c t1 t2 i).
+Proof. exact give_back_once. Qed.
+
+Print Assumptions C15_close_gives_back_once.
+
+(** * P6 — an entry of a copy-on-write cache is filled before it is published
+    (column_buffer_reflect.go structFieldsCache) *)
+
+(** [w] callers write a value of a struct type with [n] fields that no cache
+    has met.  Each loads the cache, on a miss allocates an entry, fills it
+    field by field (plain writes to its own entry), publishes it with an
+    atomic Store, and then looks its columns up in the entry it has (the
+    loaded one on a hit).  For every interleaving: a published entry has all
+    [n] fields, and every caller found all [n] fields. *)
+Theorem C15_fill_then_store_complete : forall n w sched c,
+  run fstep (finit (fill_then_store n) w) sched = Some c ->
+  (forall e, fcache (fst c) = Some e -> nth_error (fheap (fst c)) e = Some n) /\
+  (forall t k, In (t, k) (fseen (fst c)) -> k = n).
+Proof. exact fill_then_store_complete. Qed.
+
+Print Assumptions C15_fill_then_store_complete.
+
 (** The part of the property that is not a theorem: *)
 Definition C15_full_statement : Prop :=
   (* "every documented concurrent use of the Go library produces the bytes and
@@ -183,7 +222,9 @@ Definition C15_full_statement : Prop :=
      statement about Go programs under the Go memory model; it is not
      expressible over these models.  The theorems above cover the protocols'
      logic; the rest is explored by harness/c15 (stress over GOMAXPROCS, race
-     detector, trace validation). *)
+     detector, trace validation).  P5 and P6 are tied to the code by outcomes
+     only (scenarios K and J: no hook reports the Get/Put of the bufio reader
+     pools or the Load/Store of the caches). *)
   True.
 
 (** * Non-vacuity *)
@@ -289,3 +330,43 @@ Proof. vm_compute. split; reflexivity. Qed.
 Example C15_ex_commit_needs_join :
   run (gstep ex_enc) (ginit ex_batches [0;1]) [LW 0; LW 0; LW 1; LCommit] = None.
 Proof. vm_compute. reflexivity. Qed.
+
+(** P5: reader 0 is closed twice; readers 1 and 2 are opened afterwards.  With
+    the code (Close forgets what it gave back) reader 1 gets thing 0 from the
+    pool and reader 2 a new one. *)
+Definition ex_kprogs : list (list kact) :=
+  [[KOpen 0; KRead; KClose; KClose]; [KOpen 0; KRead]; [KOpen 0; KRead]].
+
+Example C15_ex_double_close :
+  match run (kstep true) (kinit ex_kprogs) [0;0;0;0;1;2] with
+  | Some c => kpool (fst c) = [] /\ map (fun th => krbuf (fst th)) (snd c) = [None; Some 0; Some 1]
+  | None => False
+  end.
+Proof. vm_compute. split; reflexivity. Qed.
+
+(** Without the two assignments `f.rbuf = nil; f.rbufpool = nil` the second
+    Close puts thing 0 into the pool again: readers 1 and 2 are open at the
+    same time on the same bufio.Reader (seeded change C15/12). *)
+Theorem C15_close_without_forgetting_refuted :
+  exists c, run (kstep false) (kinit ex_kprogs) [0;0;0;0;1;2] = Some c /\ shared_by c 1 2 0.
+Proof.
+  eexists. split; [vm_compute; reflexivity|].
+  split; [discriminate|]. do 4 eexists. repeat split; reflexivity.
+Qed.
+
+(** P6: two callers, a type of three fields; caller 0 misses, fills and
+    publishes; caller 1 hits and finds the three fields. *)
+Example C15_ex_fill_then_store :
+  match run fstep (finit (fill_then_store 3) 2) [0;0;0;0;0;0;1;1;1;1;1;1;1;0] with
+  | Some c => fcache (fst c) = Some 0 /\ fheap (fst c) = [3; 0] /\ fseen (fst c) = [(1, 3); (0, 3)]
+  | None => False
+  end.
+Proof. vm_compute. repeat split; reflexivity. Qed.
+
+(** Publishing the entry before it is filled (seeded change C15/11): caller 1
+    hits the entry when caller 0 has filled in one field of three, and writes
+    the columns of the other two as zero. *)
+Theorem C15_store_before_fill_refuted :
+  exists c, run fstep (finit (store_then_fill 3) 2) [0;0;0;0;1;1;1;1;1;1;1;0;0;0] = Some c /\
+            In (1, 1) (fseen (fst c)).
+Proof. eexists. split; [vm_compute; reflexivity|]. simpl. auto. Qed.
